@@ -421,6 +421,9 @@ def _analyze_redirects(
     return decisions
 
 
+# timeout's DURATION: a number with an optional unit (5, 0.5, 30s, 1.5m, 2h, 1d)
+_TIMEOUT_DURATION = re.compile(r"(\d+\.?\d*|\.\d+)[smhd]?")
+
 # Wrapper options whose (possibly non-numeric) argument is a separate word
 _WRAPPER_FLAGS_WITH_ARG = {
     "timeout": frozenset({"-s", "--signal", "-k", "--kill-after"}),
@@ -465,6 +468,10 @@ def _analyze_simple_command(
         while j < len(tokens):
             token = tokens[j]
             if token.isdigit() or token.replace(".", "").isdigit():
+                j += 1
+                continue
+            if base == "timeout" and _TIMEOUT_DURATION.fullmatch(token):
+                # timeout 30s cmd: the duration is not the command
                 j += 1
                 continue
             if token in _WRAPPER_FLAGS_WITH_ARG.get(base, ()):
